@@ -11,7 +11,7 @@ EXTENDS Naturals, Sequences, FiniteSets, TLC, Json, Randomization
 CONSTANTS NMsgs, Chans, NVec
 
 Rel == {"reliable", "rexmit0", "rexmit3", "lifetime50"}
-Sizes == {"empty", "one", "1k", "16k", "64k", "mixed", "random"}
+Sizes == {"empty", "one", "1k", "16k", "64k", "64KiB", "mixed", "random"}
 
 VARIABLES inflight, delivered, nsent, vec
 vars == <<inflight, delivered, nsent, vec>>
